@@ -35,6 +35,9 @@ def run_one(plan, seed, choices=None, max_steps=6000):
     def killable(p):
         if not p.name.startswith("LokyProcess"):
             return False
+        if plan.get("kill_only_workers_spawned_by_resize"):
+            env = holder.get("env")
+            return env is not None and "pids_alive_at_resize" in env.notes and p.pid not in env.notes["pids_alive_at_resize"]
         if plan.get("kill_after_shutdown"):
             env = holder.get("env")
             return env is not None and "shutdown" in env.notes
